@@ -51,7 +51,7 @@ def patternNew (p : List Char) : Pattern := (splitSlash p).map classify
 abbrev Caps := List (Seg × Seg)
 
 /-- `HashMap::insert`: an existing entry for the key is replaced -/
-def capsInsert (m : Caps) (k v : Seg) : Caps := (k, v) :: m.filter (fun e => e.1 != k)
+def capsInsert (m : Caps) (k v : Seg) : Caps := (k, v) :: m.filter (fun e => decide (e.1 ≠ k))
 
 /-- the closure given to `try_fold` in `ObjectPathPattern::matches` -/
 def foldStep (pat : Pattern) (caps : Caps) (idx : Nat) (part : Seg) : Option Caps :=
